@@ -16,6 +16,12 @@ BUDGET_S = {"quick": 40, "thorough": 400}
 
 
 def cases(tier, rng):
+    for sl in ((0, 7, 2), (1, 7, 2), (0, 6, 2), (2, 7, 2), (1, 6, 1)):
+        yield f"register-gate on strided alias {sl}", {"slice": sl}, True
+    yield from random_cases(tier, rng)
+
+
+def random_cases(tier, rng):
     count = 3000 if tier == "quick" else 40000
     for i in range(count):
         n = rng.choice([2, 3, 4])
@@ -64,7 +70,43 @@ def reverse_par(s):
     return (k, s[1], [reverse_par(c) for c in s[2]])
 
 
+def regcase_check(pl):
+    """a gate taking a whole register, called on (aliases of) strided aliases: exactly the aliased qubits are used"""
+    from jaqalpaq.core.algorithm.used_qubit_visitor import get_used_qubit_indices
+    from jaqalpaq.emulator import run_jaqal_circuit
+    from jaqalpaq.core.gatedef import GateDefinition
+    from jaqalpaq.core.parameter import Parameter, ParamType
+    from jaqalpaq.parser import parse_jaqal_string
+    a, b, c_, n = pl["slice"] + (7,)
+    outer = list(range(n))[a:b:c_]
+    inner = outer[1:3]
+    gates = dict(common.native_gates())
+    gates["Sync"] = GateDefinition("Sync", [Parameter("r", ParamType.REGISTER)])
+    for alias, want in (("ev", outer), ("e2", inner)):
+        free = [i for i in range(n) if i not in want]
+        for other, overlap in ((free[0], False), (want[-1], True)):
+            text = (f"register q[{n}]\nmap ev q[{a}:{b}:{c_}]\nmap e2 ev[1:3]\nprepare_all\nSync {alias}\n"
+                    f"< Sync {alias} | X q[{other}] >\nmeasure_all\n")
+            circ = parse_jaqal_string(text, inject_pulses=gates, autoload_pulses=False)
+            got = get_used_qubit_indices(circ.body.statements[1])
+            gs = set(got.get("q", set()))
+            if gs != set(want) or any(v for k, v in got.items() if k != "q"):
+                return f"used-qubit analysis of 'Sync {alias}' (ev = q[{a}:{b}:{c_}]) gives {dict(got)}, Python slicing gives q:{want}"
+            numpy.random.seed(0)
+            try:
+                run_jaqal_circuit(circ)
+                rejected = False
+            except JaqalError:
+                rejected = True
+            if rejected != overlap:
+                return (f"parallel block < Sync {alias} | X q[{other}] > with ev = q[{a}:{b}:{c_}]: "
+                        f"{'rejected although the branches are disjoint' if rejected else 'accepted although the branches overlap'}")
+    return None
+
+
 def check(pl):
+    if "slice" in pl:
+        return regcase_check(pl)
     from jaqalpaq.core.algorithm.used_qubit_visitor import get_used_qubit_indices
     from jaqalpaq.emulator import run_jaqal_circuit
     p, text = pl["prog"], pl["text"]
